@@ -34,6 +34,8 @@ pub mod persistence;
 pub mod range;
 pub mod recovery;
 pub mod ttl;
+#[cfg(feoxdb_verif)]
+pub mod verif_hooks;
 
 pub(super) struct VersionClock {
     hasher: RandomState,
